@@ -344,6 +344,9 @@ def call_bound(P, name, recv, args, kwargs):
     if name == 'symmap.keys' and not args:
         pr = recv.present
         return SymSet(lambda x: pr(x), recv.kname)
+    if name == 'symmap.get' and 1 <= len(args) <= 2 and recv.vtyp[0] in ('key', 'set'):   # absnodes
+        from . import absnodes
+        return absnodes.map_get(P, recv, args)
     if name == 'symmap.get' and 1 <= len(args) <= 2:
         t = _kterm(recv, args[0])
         d = args[1] if len(args) == 2 else None
